@@ -234,6 +234,31 @@ fn cache_case(args: &[String]) -> i32 {
         g.config.set_rule_enabled("W", true);
         g
     }
+    if args.first().map(|s| s.as_str()) == Some("many") {
+        // many <n> <doc1> <doc2> <cfg1> <cfg2>: n pattern rules R000.. (each flags every word), cfg = comma-separated names that are on
+        let n: usize = args[1].parse().unwrap();
+        let on = |spec: &str| -> Vec<String> { spec.split(',').filter(|x| !x.is_empty()).map(|x| x.to_string()).collect() };
+        let mk = |enabled: &[String]| {
+            let mut g = LintGroup::empty();
+            for i in 0..n {
+                let name = format!("R{i:03}");
+                g.add_pattern_linter(&name, Box::new(Rule { pat: Box::new(|t: &Token, _src: &[char]| t.kind.is_word()), tag: (10 + i) as u8 }));
+                g.config.set_rule_enabled(&name, enabled.contains(&name));
+            }
+            g
+        };
+        let (d1, d2) = (Document::new_plain_english_curated(&args[2]), Document::new_plain_english_curated(&args[3]));
+        let (c1, c2) = (on(&args[4]), on(&args[5]));
+        let mut long_lived = mk(&c1);
+        let _ = long_lived.lint(&d1);
+        for i in 0..n { let name = format!("R{i:03}"); long_lived.config.set_rule_enabled(&name, c2.contains(&name)); }
+        let got = long_lived.lint(&d2);
+        let want = mk(&c2).lint(&d2);
+        let key = |v: &Vec<Lint>| v.iter().map(|l| (l.span.start, l.span.end, l.priority)).collect::<Vec<_>>();
+        println!("{n} rules; after {:?} under {c1:?}, linting {:?} under {c2:?} gives {:?}; a fresh linter gives {:?}", args[2], args[3], key(&got), key(&want));
+        if key(&got) != key(&want) { println!("VIOLATED: the long-lived linter disagrees with a fresh one"); return 1; }
+        return 0;
+    }
     let d1 = Document::new_plain_english_curated(&args[0]);
     let d2 = Document::new_plain_english_curated(&args[1]);
     let q2 = args.get(2).map(|s| s != "0").unwrap_or(true);
